@@ -263,7 +263,13 @@ func (m *monC15) OnSave(f *Flow, op *DiskOp) {
 		// new records must order after every record in the store
 		// (within one kind of record: those are what AdoptSession orders;
 		// Saves of different kinds may overtake each other)
+		// (outbound records only: reception markers are looked up by key
+		// and never ordered, and AdoptSession does not count them when it
+		// continues the sequence)
 		for k, ov := range w.Disk.M {
+			if op.Key > 0xffff || k > 0xffff {
+				continue
+			}
 			if k == op.Key || k == 0 || k&^0x3fff != op.Key&^0x3fff || recClass(k, ov) != recClass(op.Key, v) {
 				continue
 			}
